@@ -369,7 +369,7 @@ PROPS["C15"] = dict(
                "untouched -- so triangles stay triangles and the neighbourhood keeps its adjacency); the interior collapse to the "
                "midpoint removes the six darts of the two triangles and glues their outer neighbours pairwise, nothing else "
                "changes (C15_collapse_midpoint_topology, images and removal flags) and leaves a well-formed map "
-               "(C15_collapse_midpoint_keeps_wf2); the boundary half-cell of a collapse towards an end point disappears entirely with no removed dart keeping a neighbour (C15_collapse_to_base_boundary_removes_cell, the branch repaired by fix 667f50e) and leaves a well-formed map (C15_collapse_to_base_boundary_keeps_wf2) or, when its next edge is interior, hands its remaining dart to the neighbouring face (C15_collapse_to_base_inner_merges_cell, C15_collapse_to_base_inner_keeps_wf2); the whole driver collapse_edge_to_base on a boundary edge whose triangle has a second boundary side -- the unit-square configuration of the repaired defect -- has exactly the half-cell's topological effect and keeps wf2 (C15_collapse_to_base_boundary_edge_topology, _keeps_wf2; with an interior second side: C15_collapse_to_base_boundary_edge_merges, _merge_keeps_wf2); midpoint collapse of a boundary edge: C15_collapse_midpoint_boundary_edge_topology; both half-cell routines of the collapse are regenerated from collapse.rs on every run (C15_collapse_halfcells_are_the_source), as are the two drivers that call them, collapse_edge_to_midpoint and collapse_edge_to_base (C15_collapse_drivers_are_the_source); other collapse variants: per observation",
+               "(C15_collapse_midpoint_keeps_wf2); the boundary half-cell of a collapse towards an end point disappears entirely with no removed dart keeping a neighbour (C15_collapse_to_base_boundary_removes_cell, the branch repaired by fix 667f50e) and leaves a well-formed map (C15_collapse_to_base_boundary_keeps_wf2) or, when its next edge is interior, hands its remaining dart to the neighbouring face (C15_collapse_to_base_inner_merges_cell, C15_collapse_to_base_inner_keeps_wf2); the whole driver collapse_edge_to_base on a boundary edge whose triangle has a second boundary side -- the unit-square configuration of the repaired defect -- has exactly the half-cell's topological effect and keeps wf2 (C15_collapse_to_base_boundary_edge_topology, _keeps_wf2; with an interior second side: C15_collapse_to_base_boundary_edge_merges, _merge_keeps_wf2); midpoint collapse of a boundary edge: C15_collapse_midpoint_boundary_edge_topology, _keeps_wf2; both half-cell routines of the collapse are regenerated from collapse.rs on every run (C15_collapse_halfcells_are_the_source), as are the two drivers that call them, collapse_edge_to_midpoint and collapse_edge_to_base (C15_collapse_drivers_are_the_source); other collapse variants: per observation",
     technique="Coq model of the kernels + correspondence + extracted Coq specification (exact arithmetic) as per-run validator",
     families=[
         Family("kern-remesh", "core2", r_kern("remesh", 1200, 20000, 8), 1, [(9, "remesh_spec", REM_CLASSES)]),
